@@ -17,6 +17,9 @@ class Context:
         self._loop_depth = 0
         self._in_matrix = False
         self._in_routine = False
+        # Loops open when the current routine definition began: they do not
+        # enclose the routine's body.
+        self._routine_loop_base = 0
 
     def __contains__(self, name) -> bool:
         return name in self._locals or name in self._globals
@@ -26,18 +29,21 @@ class Context:
         # allowed.
         self._in_routine = False
         self._in_matrix = False
+        self._routine_loop_base = 0
         self._globals.clear()
         self._locals.clear()
         self._loop_stack.clear()
 
     def enter_routine(self) -> None:
         self._in_routine = True
+        self._routine_loop_base = len(self._loop_stack)
 
     def in_routine(self) -> bool:
         return self._in_routine
 
     def exit_routine(self) -> None:
         self._in_routine = False
+        self._routine_loop_base = 0
         self._locals.clear()
 
     def enter_matrix(self) -> None:
@@ -53,7 +59,7 @@ class Context:
         self._loop_stack.append(_LoopContext())
 
     def in_loop(self) -> bool:
-        return len(self._loop_stack) > 0
+        return len(self._loop_stack) > self._routine_loop_base
 
     def exit_loop(self) -> None:
         self._loop_stack.pop()
